@@ -1,0 +1,51 @@
+//go:build verif
+
+// Contracts for the deductive verifier in /verif (govc). Comment-only file:
+// with the build tag off it does not exist, with the tag on it compiles to nothing.
+
+package encoder
+
+//@ spec digit(c) := c >= 48 && c <= 57
+//@ spec dvStep(s, n, k, acc) := k <= n ? acc*10 + (s[k-1]-48) : acc
+//@ spec decvalN(s, n) := dvStep(s,n,20, dvStep(s,n,19, dvStep(s,n,18, dvStep(s,n,17, dvStep(s,n,16, dvStep(s,n,15, dvStep(s,n,14, dvStep(s,n,13, dvStep(s,n,12, dvStep(s,n,11, dvStep(s,n,10, dvStep(s,n,9, dvStep(s,n,8, dvStep(s,n,7, dvStep(s,n,6, dvStep(s,n,5, dvStep(s,n,4, dvStep(s,n,3, dvStep(s,n,2, dvStep(s,n,1, 0))))))))))))))))))))
+//@ spec digitsAt(b, s, c) := forall k :: 0 <= k && k < c - s ==> digit(b[s+k])
+//@ spec bitSizeOK(w) := w == 8 || w == 16 || w == 32 || w == 64
+// canonical decimal text of a non-negative integer v in t[s:c): digits only, no leading zero, exact value
+//@ spec canonUint(t, s, c, v) := s < c && c - s <= 20 && digitsAt(t, s, c) && (t[s] == '0' ==> c == s+1) && decvalN(t[s:c], c - s) == v
+
+// every entry of the two-digit table is the ASCII pair of its index, low byte first
+//@ tablelemma[C16] intLELookup(j, v) := v % 256 == 48 + j / 10 && v / 256 == 48 + j % 10
+
+//@ func numMask(numBitSize) (r)
+//@   props C16
+//@   requires bitSizeOK(numBitSize)
+//@   ensures r == pow2(numBitSize) - 1
+//@   assigns nothing
+
+//@ spec wordAtW(p, w) := w == 8 ? wordAt(p, 1) : (w == 16 ? wordAt(p, 2) : (w == 32 ? wordAt(p, 4) : wordAt(p, 8)))
+//@ spec signedOf(u, w) := u >= pow2(w-1) ? u - pow2(w) : u
+
+//@ func AppendUint(ctx, out, p, code) (res)
+//@   props C16
+//@   requires code != nil && bitSizeOK(code.NumBitSize) && endianness == 0
+//@   requires region(p, code.NumBitSize / 8)
+//@   let x := wordAtW(p, code.NumBitSize)
+//@   ensures len(res) > len(out) && len(res) - len(out) <= 20
+//@   ensures old(x) < 100 ==> canonUint(res, len(out), len(res), old(x))
+//@   ensures old(x) < 100 ==> forall k :: 0 <= k && k < len(out) ==> res[k] == old(out[k])
+//@   ensures[unverified] old(x) >= 100 ==> canonUint(res, len(out), len(res), old(x))
+//@   ensures[unverified] old(x) >= 100 ==> forall k :: 0 <= k && k < len(out) ==> res[k] == old(out[k])
+//@   assigns M
+//@   loop 1: unroll 9 split
+
+//@ func AppendInt(ctx, out, p, code) (res)
+//@   props C16
+//@   requires code != nil && bitSizeOK(code.NumBitSize) && endianness == 0
+//@   requires region(p, code.NumBitSize / 8)
+//@   let x := signedOf(wordAtW(p, code.NumBitSize), code.NumBitSize)
+//@   ensures len(res) > len(out) && len(res) - len(out) <= 21
+//@   ensures[unverified] old(x) >= 0 ==> canonUint(res, len(out), len(res), old(x))
+//@   ensures[unverified] old(x) < 0 ==> res[len(out)] == '-' && canonUint(res, len(out)+1, len(res), 0 - old(x))
+//@   ensures[unverified] forall k :: 0 <= k && k < len(out) ==> res[k] == old(out[k])
+//@   assigns M
+//@   loop 1: unroll 9 split
